@@ -196,6 +196,11 @@ func c12Run(env *core.Env, idx int) *core.CaseResult {
 	var failure string
 	var wg sync.WaitGroup
 	var finished atomic.Int32
+	var refused atomic.Int64
+	refusing := idx%4 == 1 && !burst
+	if refusing {
+		tags = append(tags, "refused-statements-among-callers")
+	}
 	seeds := make([]int64, clients)
 	for i := range seeds {
 		seeds[i] = r.Int63()
@@ -273,6 +278,24 @@ func c12Run(env *core.Env, idx int) *core.CaseResult {
 						mu.Unlock()
 					}
 					continue
+				}
+				if refusing && lr.Intn(2) == 0 {
+					// a statement the engine has to refuse (parse / plan error): the caller gets an error of its own statement, nothing else
+					// changes - in particular not the request manager's ability to run the statements queued behind it
+					bad := []string{
+						"SELEC id FROM acct0;",
+						"SELECT id FROM acct_no_such_table WHERE id = 1;",
+						"SELECT nocol FROM acct0 WHERE id = 1;",
+						"CREATE TABLE acct0(id INT, g1 INT, g2 INT, val VARCHAR(64));",
+						"UPDATE acct0 SET nocol = 1 WHERE id = 1;",
+						"INSERT INTO acct_no_such_table(a) VALUES (1);",
+					}[lr.Intn(6)]
+					err, out := db.S.ExecuteSQL(bad)
+					if err == nil || len(out) != 0 {
+						fail(fmt.Sprintf("%s (a statement that cannot be executed) returned (%v, %v)", bad, err, out))
+						return
+					}
+					refused.Add(1)
 				}
 				in := c12In{Bank: lr.Intn(banks), Grp: []string{"g1", "g2", "id"}[lr.Intn(3)]}
 				switch in.Grp {
@@ -401,6 +424,7 @@ func c12Run(env *core.Env, idx int) *core.CaseResult {
 	res.Add("histories", 1)
 	res.Add("operations", int64(len(ops)))
 	res.Add("clients", int64(clients))
+	res.Add("refused_statements_answered_with_an_error", refused.Load())
 	if failure != "" {
 		k := "wrong-result"
 		if strings.Contains(failure, "panicked") {
